@@ -80,13 +80,6 @@ static void hook(int point, void*, const void* a, const void*)
     me.parked = true;
     me.point = point;
     if (point == verif::UCI_LINE) g_u_line = static_cast<const char*>(a);
-    if (g_want_trace)
-    {
-        g_trace += (t_role == 1 ? "U:" : "S:");
-        g_trace += PNAME[point];
-        if (point == verif::UCI_LINE) g_trace += std::string("(") + static_cast<const char*>(a) + ")";
-        g_trace += ' ';
-    }
     g_cv.notify_all();
     g_cv.wait(lk, [&] { return me.granted; });
     me.granted = false;
@@ -105,6 +98,15 @@ static WaitResult wait_parked(int role)
 static void grant(int role)
 {
     std::unique_lock<std::mutex> lk(g_m);
+    if (g_want_trace)
+    {
+        // recorded at grant time by the (sequential) controller, so the trace does not depend on
+        // which of two freshly started threads reaches its first point first
+        g_trace += (role == 1 ? "U:" : "S:");
+        g_trace += PNAME[g_th[role].point];
+        if (g_th[role].point == verif::UCI_LINE) g_trace += "(" + g_u_line + ")";
+        g_trace += ' ';
+    }
     g_th[role].parked = false;   // must be cleared here, otherwise the same park is seen again
     g_th[role].granted = true;
     g_th[role].steps++;
